@@ -4,9 +4,11 @@
 socket, reactor and write phase are scripted; what they do is compared, event by event, with the
 driver command `thread` (Drive/C14Compose.lean).
 
-Stand-alone:  cd /verif/harness && /venv/bin/python corr/c14compose.py [N] [seed]
-(uses `lake env lean --run` on a scratch main; once `PyCraft.Drive.c14compose` is in the handler
-list of Driver.lean, `run(ctx)` below does the same through the ordinary driver).
+Stand-alone:  cd /verif/harness && /venv/bin/python corr/c14compose.py [N] [seed] [repo] [a|b|c]
+(through the ordinary driver binary, like `run(ctx)` below, which corr/c14.py calls).  With a fourth
+argument the model side is the CHANGED code `thread.mut <a|b|c>` (PART III of Props/C14Compose.lean)
+and `repo` should be a copy of /repo with the corresponding change applied: this checks that the
+mutant models mirror the changed Python.
 
 Not observable on the real code and therefore removed from the model's log before comparing: the
 events `fg:` (deferred write error forgiven) and `df:` (deferred write error raised) -- their
@@ -14,7 +16,6 @@ consequences (which exception enters `_handle_exception`, or none) are compared.
 """
 import os
 import random
-import subprocess
 import sys
 from collections import deque
 
@@ -432,45 +433,35 @@ def normalise(model_reply, ended):
 
 
 def run(ctx):
-    """Correspondence run in the style of the other corr modules (needs the `thread` command in the
-    driver's handler list)."""
-    ctx.extra['rule'] = RULE
-    cases = make_cases(ctx.scale(300, 4000), ctx.rng.random())
+    """Correspondence run in the style of the other corr modules: called from corr/c14.py's run (the `thread`
+    command is in the driver's handler list).  All randomness derives from ctx.rng."""
+    import lib
+    ctx.extra.setdefault('rule_c14compose', RULE)
+    cases = make_cases(ctx.scale(600, 6000), ctx.rng.random(), lib.REPO)
     replies = ctx.driver.ask([c[0] for c in cases])
     for (line, got, ended), mo in zip(cases, replies):
-        ctx.case(('t', line))
+        ctx.case(('t', line), sample={'op': 'thread', 'impl': got[:160]} if ctx.rng.random() < 0.01 else None)
+        ctx.count('thread.cleanup.' + got.split(' cleanup=')[1].split(' ')[0] + ('' if ended else '.running'))
         if normalise(mo, ended) != got:
             ctx.disagree('thread run', line, mo, got)
+    ctx.extra['c14compose_pairs'] = ctx.extra.get('c14compose_pairs', 0) + len(cases)
 
-
-MAIN = '''import PyCraft.Drive.C14Compose
-open PyCraft PyCraft.Drive
-partial def loop (h : IO.FS.Stream) (out : IO.FS.Stream) : IO Unit := do
-  let line ← h.getLine
-  if line.isEmpty then return ()
-  let toks := (line.trimAscii.toString.splitOn " ").filter (· ≠ "")
-  out.putStrLn ((c14compose toks).getD "bad-op")
-  loop h out
-def main : IO Unit := do
-  let out ← IO.getStdout
-  loop (← IO.getStdin) out
-  out.flush
-'''
 
 if __name__ == '__main__':
     n = int(sys.argv[1]) if len(sys.argv) > 1 else 300
     seed = sys.argv[2] if len(sys.argv) > 2 else '1'
-    cases = make_cases(n, seed)
-    lean = os.path.join(os.path.dirname(os.path.dirname(os.path.dirname(os.path.abspath(__file__)))), 'lean')
-    main = '/tmp/c14compose_main_%d.lean' % os.getpid()
-    with open(main, 'w') as f:
-        f.write(MAIN)
-    p = subprocess.run(['lake', 'env', 'lean', '--run', main], cwd=lean, capture_output=True, text=True,
-                       input='\n'.join(c[0] for c in cases) + '\n')
-    os.unlink(main)
-    outs = p.stdout.split('\n')[:-1]
-    if p.returncode != 0 or len(outs) != len(cases):
-        print('driver failed', p.returncode, p.stderr[-2000:], len(outs), len(cases))
+    repo = sys.argv[3] if len(sys.argv) > 3 else '/repo'
+    mut = sys.argv[4] if len(sys.argv) > 4 else None
+    cases = make_cases(n, seed, repo)
+    if mut:
+        cases = [('thread.mut %s %s' % (mut, line[len('thread '):]), got, ended)
+                 for line, got, ended in cases]
+    sys.path.insert(0, os.path.dirname(os.path.dirname(os.path.abspath(__file__))))
+    import lib
+    try:
+        outs = lib.Driver().ask([c[0] for c in cases])
+    except lib.InfraError as e:
+        print('driver failed', e)
         sys.exit(2)
     bad = 0
     stats = {}
